@@ -331,6 +331,11 @@ class Exec:
                 return base[slice(lo, hi, st)]
             return simplify(T('slice', (base, lo, hi) + ((st,) if st is not None else ())))
         idx = self.ev(e.slice, env)
+        # x[slice(a, b)] is x[a:b]
+        if isinstance(idx, T) and idx.op == 'call' and idx.args[0] == 'slice' and 1 <= len(idx.args[1]) <= 3 and not idx.args[2]:
+            a = idx.args[1]
+            lo, hi, st = (None, a[0], None) if len(a) == 1 else (a[0], a[1], a[2] if len(a) == 3 else None)
+            return simplify(T('slice', (base, lo, hi) + ((st,) if st is not None else ())))
         return self.getitem(base, idx)
 
     def getitem(self, base, idx):
@@ -850,6 +855,14 @@ class Exec:
                     and node.func.value.func.id == 'super' and isinstance(env, dict) and 'self' in env:
                 recv = env['self']
             return self.inline(target, recv, args, kwargs)
+        # round(x, ndigits=n) is round(x, n)
+        if fname == 'round' and len(args) == 1 and len(kwargs) == 1 and tuple(kwargs)[0][0] == 'ndigits':
+            args, kwargs = tuple(args) + (tuple(kwargs)[0][1],), ()
+        # a method of a compiled pattern is the module function with the pattern first: re.compile(p).match(s) is re.match(p, s)
+        if isinstance(fval, T) and fval.op == 'attr' and isinstance(fval.args[0], T) and fval.args[0].op == 'call' \
+                and fval.args[0].args[0] == 're.compile' and len(fval.args[0].args[1]) == 1 and not fval.args[0].args[2] \
+                and fval.args[1] in ('match', 'search', 'fullmatch', 'findall', 'finditer', 'split', 'sub', 'subn'):
+            fname, args = 're.' + fval.args[1], (fval.args[0].args[1][0],) + tuple(args)
         self.events.append(('call', fname, args, kwargs))
         return T('call', (fname, args, kwargs))
 
@@ -1354,6 +1367,14 @@ class Exec:
         if st.exc is None:
             raise Raise('reraise', ())
         e = st.exc
+        # `raise make_error(...)`: a function of the module that builds the exception - what is raised is what it returns
+        mod = getattr(env.get('__fi__'), 'module', None) if isinstance(env, dict) else None
+        if isinstance(e, ast.Call) and isinstance(e.func, ast.Name) and mod is not None and e.func.id not in env \
+                and e.func.id in getattr(mod, 'toplevel_funcs', {}) and e.func.id not in getattr(mod, 'classes', {}):
+            v = self.ev(e, env)
+            if isinstance(v, T) and v.op in ('call', 'new') and isinstance(v.args[0], str):
+                raise Raise(v.args[0], tuple(v.args[1]))
+            raise Raise(ast.unparse(e.func), ())
         if isinstance(e, ast.Call):
             name = ast.unparse(e.func)
             args = tuple(self.ev(a, env) for a in e.args)
